@@ -564,7 +564,7 @@ def explore(
             res.exhausted = True
             res.stop_reason = "exhausted"
             break
-        if len(failure_keys) >= max_failures:
+        if len(failure_keys) >= max_failures or any(v >= 8 for v in failure_keys.values()):
             res.stop_reason = "max_failures"
             break
         if len(res.crashes) >= 3:
